@@ -5,7 +5,7 @@
 (* with the machine's observations attached (replayed into the real iterators by vh g-iter).       *)
 EXTENDS IterMachine
 CONSTANTS MaxWords
-VARIABLES frame, body, tape, obs
+VARIABLES frame, body, tape, obs, mobs
 
 Pays == {0, 1, 2, 3, 4, 5, 6, BIG}
 Words == {<<tg, p>> : tg \in {"r", "{", "["}, p \in Pays} \cup {<<"N", p>> : p \in Pays \ {0}}
@@ -19,11 +19,12 @@ Frame(f, b) ==
     [] f = 3 -> << <<"r", m + 4>>, <<"{", m + 3>> >> \o b \o << <<"}", 1>>, <<"r", 0>> >>
 
 Init == frame \in 0..3 /\ body = <<>> /\ tape = Frame(frame, <<>>) /\ obs = Observe(Frame(frame, <<>>))
+        /\ mobs = ObserveMarshal(Frame(frame, <<>>))
 Next == /\ Len(body) < MaxWords
         /\ \E w \in Words : body' = Append(body, w)
-        /\ tape' = Frame(frame, body') /\ obs' = Observe(tape')
+        /\ tape' = Frame(frame, body') /\ obs' = Observe(tape') /\ mobs' = ObserveMarshal(tape')
         /\ UNCHANGED frame
-Spec == Init /\ [][Next]_<<frame, body, tape, obs>>
+Spec == Init /\ [][Next]_<<frame, body, tape, obs, mobs>>
 
 Has(seq, x) == \E i \in 1..Len(seq) : seq[i][1] = x
 \* every walk comes to an end within the length of the tape
@@ -39,4 +40,8 @@ PeekAgrees == /\ obs.adv # <<>> => obs.peek[1] = obs.adv[1][1]
               /\ obs.peek[2] = (IF obs.into = <<>> THEN End ELSE obs.into[1][1])
 \* the strict walks agree on the top level: Advance and AdvanceIter see the same values unless AdvanceIter refuses
 IterAgrees == \A i \in 1..Len(obs.iter) : obs.iter[i][1] = "ERR" \/ (i <= Len(obs.adv) /\ obs.iter[i][1] = obs.adv[i][1])
+\* MarshalJSON from every iterator state ends within the step bound, and what it returns without an error is properly bracketed
+AllOK(sq) == \A i \in 1..Len(sq) : MarshalResultOK(sq[i])
+MarshalTerminatesBalanced == /\ MarshalResultOK(mobs.mnew) /\ AllOK(mobs.madv) /\ AllOK(mobs.minto) /\ AllOK(mobs.miter)
+                             /\ AllOK(mobs.mroot) /\ AllOK(mobs.mdeep)
 =========================================================================
